@@ -43,6 +43,9 @@ func (rc ReportCodecEVMStreamlined) Encode(r llo.Report, cd llotypes.ChannelDefi
 		// domain separation and info about the report format.
 		payload = opts.FeedID.Bytes()
 	}
+	if len(opts.ABI) != len(r.Values) {
+		return nil, fmt.Errorf("ABI and values length mismatch; ABI: %d, Values: %d", len(opts.ABI), len(r.Values))
+	}
 	payload = append(payload, encodePackedUint64(r.ValidAfterNanoseconds)...)
 	// Pack-encode the rest of the values
 	for i, encoder := range opts.ABI {
